@@ -4,7 +4,7 @@ import json
 import os
 import re
 
-from sa.expr import txt, atom
+from sa.expr import txt, atom, unawait
 from sa.model import AnalysisError
 from . import sockrules as S
 from . import srvrules as R
@@ -61,26 +61,69 @@ def tokens(A, fi, ctx):
     en = A.enum(opaque=opaque, max_paths=150000, refine_raises=False, keep=keep, loop_bound=1)
     out = set()
     for p in A.paths(en, fi, ctx):
+        alias = {}      # kept name -> text of the session-handler call it holds on this path
+        path_out = []
+
+        def sub(t):
+            for nm_, d in alias.items():
+                t = re.sub(r'(?<![\w.\'"])%s(?![\w\'"])' % re.escape(nm_), lambda _m: d, t)
+            return t
+
+        def add(t):
+            path_out.append(sub(t))
         for i, e in enumerate(p.events):
             if e.depth != 0:
                 continue
             if e.kind == 'bind' and placeholder_bind(p, i):
                 continue
+            if e.kind == 'bind':
+                nm = txt(e.target)
+                if nm in alias and not txt(e.expr).startswith('socket.handle_'):
+                    path_out.append('def %s := %s' % (nm, sub(txt(e.expr))))   # about the old value
+                    alias.pop(nm, None)
+                    continue
+                alias.pop(nm, None)
+                if txt(e.expr).startswith('socket.handle_'):
+                    # the response variable holds the session handler's result for a while
+                    # (``r = socket.handle_get_request(..)``): later facts are stated about
+                    # that result, whatever the local is called
+                    alias[nm] = txt(e.expr)
+                    continue
             if e.kind == 'guard' and e.cls != 'decided':
                 a, pl = atom(e.expr, e.pol)
-                out.add('guard ' + a)
+                add('guard ' + a)
             elif e.kind == 'call':
-                out.add('call ' + txt(e.expr))
+                c_ = unawait(e.expr)
+                if isinstance(c_, ast.Call) and isinstance(c_.func, ast.Attribute) and \
+                        c_.func.attr == 'append' and isinstance(c_.func.value, ast.List):
+                    # the receiver is the list built so far: its length depends on how far
+                    # the loop was unrolled, the fact is what is appended
+                    add('call <list>.append(%s)' % ', '.join(txt(a) for a in c_.args))
+                else:
+                    add('call ' + txt(e.expr))
             elif e.kind == 'write':
-                out.add('write %s = %s' % (txt(e.target), txt(e.expr)))
+                add('write %s = %s' % (txt(e.target), txt(e.expr)))
             elif e.kind == 'del':
-                out.add('del ' + txt(e.target))
+                add('del ' + txt(e.target))
             elif e.kind == 'raise':
-                out.add('raise %s' % e.cls)
+                st_ = getattr(e.node, 'ast', None)
+                if isinstance(st_, ast.Raise) and st_.exc is None:
+                    continue    # a bare re-raise passes on what came (like a finally clause)
+                add('raise %s' % e.cls)
             elif e.kind == 'bind':
-                out.add('def %s := %s' % (txt(e.target), txt(e.expr)))
+                add('def %s := %s' % (txt(e.target), txt(e.expr)))
         if p.outcome == 'return':
-            out.add('return ' + txt(p.value))
+            rv = unawait(p.value) if p.value is not None else None
+            if isinstance(rv, ast.List) and len(rv.elts) > 1:
+                # a list built in a loop: repeated elements only tell the unrolling depth
+                el = []
+                for x in rv.elts:
+                    if not el or txt(x) != el[-1]:
+                        el.append(txt(x))
+                path_out.append('return [%s]' % ', '.join(el))
+            else:
+                path_out.append('return ' + txt(p.value))
+        out.update(path_out)
     norm = set()
     for t in out:
         for pat, rep in NORM:
